@@ -26,7 +26,17 @@ def conc_len(it, n, what):
     conds.append(z3.UGT(z, z3.BitVecVal(SYMBOLIC_ALLOC_FORK, n.w)))
     k = it.choose(len(conds), conds)
     if k > SYMBOLIC_ALLOC_FORK:
-        raise Inconclusive('%s with a symbolic size that may exceed %d bytes (needs the array+length byte model)' % (what, SYMBOLIC_ALLOC_FORK))
+        # sizes beyond the fork bound: ONE representative value per path (stated under-approximation: the claim
+        # covers every size <= SYMBOLIC_ALLOC_FORK and one solver-chosen larger size per path)
+        if not it.check_sat():
+            from ..interp import Infeasible
+            raise Infeasible()
+        v = it.solver.model().eval(z, model_completion=True).as_long()
+        if v > (1 << 20):
+            raise Inconclusive('%s: representative size %d too large to materialise' % (what, v))
+        it.solver.add(z == z3.BitVecVal(v, n.w))
+        it.stats['models']['(representative allocation size > %d)' % SYMBOLIC_ALLOC_FORK] = it.stats['models'].get('(representative allocation size > %d)' % SYMBOLIC_ALLOC_FORK, 0) + 1
+        return v
     return k
 
 
@@ -37,6 +47,15 @@ def m_zeroed(it, a, ty, callee):
 
 def m_new(it, a, ty, callee):
     return byte_seq(())
+
+
+def m_resize(it, a, ty, callee):
+    p, n, val = a
+    v = it.load(p)
+    k = conc_len(it, n, 'BytesMut::resize')
+    f = list(v.fields[:k]) + [val] * max(0, k - len(v.fields))
+    it.store(p, byte_seq(f))
+    return UNIT
 
 
 def m_deref(it, a, ty, callee):
@@ -252,8 +271,34 @@ def m_slice_contains_byte(it, a, ty, callee):
     return b_or(*[it.veq(p, b) for p in x])
 
 
+def m_to_vec(it, a, ty, callee):
+    return Seq(as_bytes(it, a[0]), 'vec')
+
+
+def m_bytes_slice(it, a, ty, callee):
+    """Bytes::slice(range) -> Bytes"""
+    from .seq import _range_bounds
+    v = deref_bytes(it, a[0])
+    lo, hi = _range_bounds(it, a[1], len(v))
+    it.require(lo <= hi, 'panic', 'Bytes::slice: range start after end')
+    return byte_seq(v[lo:hi])
+
+
+def deref_bytes(it, p):
+    v = p
+    while isinstance(v, Ptr):
+        v = it.load(v)
+    return v.fields
+
+
 def install(it):
     A = it.add_model
+    A(r'(?:std|core)::slice::<impl \[u8\]>::to_vec', m_to_vec)
+    A(r'bytes::Bytes::to_vec', m_to_vec)
+    A(r'<bytes::(Bytes|BytesMut) as std::convert::Into<std::vec::Vec<u8>>>::into', m_to_vec)
+    A(r'<std::vec::Vec<u8> as std::convert::From<bytes::(Bytes|BytesMut)>>::from', m_to_vec)
+    A(r'bytes::Bytes::slice::<.*>', m_bytes_slice)
+    A(r'<bytes::(Bytes|BytesMut) as std::clone::Clone>::clone', lambda it, a, ty, c: it.load(a[0]))
     A(r'<bytes::(Bytes|BytesMut) as std::cmp::PartialEq<.*>>::(eq|ne)', m_bytes_eq)
     A(r'<&?\[u8\] as std::cmp::PartialEq<\[u8; \d+\]>>::(eq|ne)', m_bytes_eq)
     A(r'<&\[u8\] as std::cmp::PartialEq(<.*>)?>::(eq|ne)', m_bytes_eq)
@@ -266,6 +311,7 @@ def install(it):
     A(r'std::boxed::Box::<.*>::pin', m_box_pin)
     A(r'<\{async .*\} as (?:std::future|futures)::Future>::poll', m_future_poll)
     A(r'bytes::BytesMut::zeroed', m_zeroed)
+    A(r'bytes::BytesMut::resize', m_resize)
     A(r'bytes::(BytesMut|Bytes)::(new|with_capacity)', m_new)
     A(r'<bytes::(BytesMut|Bytes) as std::ops::Deref(Mut)?>::deref(_mut)?', m_deref)
     A(r'<bytes::(BytesMut|Bytes) as std::convert::AsRef<\[u8\]>>::as_ref', m_deref)
@@ -278,6 +324,7 @@ def install(it):
     A(r'bytes::BytesMut::freeze', m_identity)
     A(r'<bytes::(BytesMut|Bytes) as std::convert::From<&\[u8\]>>::from', m_from_slice)
     A(r'bytes::Bytes::copy_from_slice', m_from_slice)
+    A(r'bytes::Bytes::from_static', m_from_slice)
     A(r'<bytes::(BytesMut|Bytes) as std::convert::From<std::vec::Vec<u8>>>::from', m_from_vec)
     A(r'<bytes::Bytes as std::convert::From<bytes::BytesMut>>::from', m_identity)
     A(r'bytes::BytesMut::extend_from_slice', m_extend)
@@ -287,8 +334,8 @@ def install(it):
     A(r"tokio::io::ReadBuf::<'_>::filled", m_readbuf_filled)
     A(r"tokio::io::ReadBuf::<'_>::remaining", m_readbuf_remaining)
     A(r"tokio::io::ReadBuf::<'_>::put_slice", m_readbuf_put_slice)
-    A(r'std::pin::Pin::<.*>::new', m_pin_new)
-    A(r'std::pin::Pin::<.*>::(into_inner|get_mut|get_ref)', m_pin_inner)
+    A(r'std::pin::Pin::<.*>::(new|new_unchecked)', m_pin_new)
+    A(r'std::pin::Pin::<.*>::(into_inner|get_mut|get_ref|get_unchecked_mut|into_inner_unchecked)', m_pin_inner)
     A(r'std::pin::Pin::<.*>::as_mut', m_pin_as_mut)
     A(r'<std::pin::Pin<.*> as std::ops::Deref(Mut)?>::deref(_mut)?', m_pin_deref)
     A(r'std::ptr::null(_mut)?::<.*>', m_extern('null'))
